@@ -1,6 +1,7 @@
 package sx
 
 import (
+	"sync/atomic"
 	"fmt"
 	"os"
 	"sort"
@@ -106,6 +107,9 @@ type Explorer struct {
 	Emitted   []string
 	assumed   map[string]bool
 	accesses  map[string]*accessSummary
+	stopAt    time.Time
+	// CutShort: exploration ended early because a violation was already found
+	CutShort bool
 }
 
 // Solvers returns the used solver handles (for statistics).
@@ -151,6 +155,11 @@ type Options struct {
 	StopOnFinding bool
 	// Params are harness parameters (vx.Param).
 	Params map[string]string
+	// Stop, when non-nil, is shared by the harnesses of one check: it is set
+	// when a finding has been made anywhere; exploration of every harness then
+	// winds down after a short grace period (more paths add little once the
+	// property is known to be violated).
+	Stop *int32
 	// Fixed, when non-nil, pins every labelled input to a recorded value
 	// (concrete re-execution of a counterexample inside the engine).
 	Fixed map[string][]uint64
@@ -417,6 +426,9 @@ func (m *Machine) Branch(cond *smt.Term) bool {
 		return false
 	}
 	e := m.E
+	if !e.deadline.IsZero() && time.Now().After(e.deadline) {
+		m.abort(abDone, "time limit")
+	}
 	if m.pos < len(e.trail) {
 		d := &e.trail[m.pos]
 		if d.kind != dBranch {
@@ -847,6 +859,21 @@ func (e *Explorer) Run(fn *ssa.Function) (complete bool) {
 		e.Stats.Instrs += m.steps
 		if e.Opt.StopOnFinding && len(e.Findings) > 0 {
 			return false
+		}
+		if e.Opt.Stop != nil {
+			if len(e.Findings) > 0 && atomic.LoadInt32(e.Opt.Stop) == 0 {
+				atomic.StoreInt32(e.Opt.Stop, 1)
+				e.stopAt = time.Now().Add(20 * time.Second)
+			}
+			if atomic.LoadInt32(e.Opt.Stop) != 0 {
+				if e.stopAt.IsZero() {
+					e.stopAt = time.Now().Add(20 * time.Second)
+				}
+				if time.Now().After(e.stopAt) {
+					e.CutShort = true
+					return false
+				}
+			}
 		}
 		if !e.backtrack() {
 			return true
